@@ -302,7 +302,11 @@ def run(chk):
                 promos.append(qc.classify_exc(e))
         else:
             promos.append(None)
-    outs = qc.run_model(binary, lines) if binary else [None] * len(cases)
+    try:
+        outs = qc.run_model(binary, lines) if binary else [None] * len(cases)
+    except Exception as e:  # noqa  -- a broken model must not stop the oracle
+        chk.obligation("extracted model ran on the generated cases", False, str(e)[-1000:])
+        outs = [None] * len(cases)
     bad_instances = []
     for (origin, text, t, table, objs), d, (res, trace, exc), rr, promo, out in zip(cases, dumps, reals, renders, promos, outs):
         mo = qc.decode_qq(out) if out is not None else None
